@@ -13,6 +13,10 @@ _poll` of a connection pair.  Under harness/detsched.py these are replaced by:
            (the feeder) and notify() callers holding the lock.
   TThread  start() hands `target(*args)` to the scheduler as the process's feeder logical thread
   pipe     send_bytes / recv_bytes / poll are yield points on the scheduler's message list
+  clock    billiard.queues.monotonic() returns an opaque reading; `reading + timeout` is a deadline and
+           `deadline - reading` (the remaining time of a timed get) is a yield point at which the
+           scheduler decides whether the deadline has passed (-1.0) or not (the whole timeout)
+  Unpicklable  an int whose pickling raises: what Queue.put accepts and the feeder cannot serialise
 """
 import pickle
 
@@ -111,6 +115,39 @@ def pipe_methods():
     return send_bytes, recv_bytes, poll
 
 
+class Now:
+    """a reading of the logical clock; only its difference with a Deadline is observable"""
+    def __add__(self, timeout):
+        return Deadline(timeout)
+    __radd__ = __add__
+
+
+class Deadline:
+    def __init__(self, timeout):
+        self.timeout = timeout
+
+    def __sub__(self, other):
+        if isinstance(other, Now):
+            return detsched.Scheduler.current.clock_op(self.timeout)
+        return NotImplemented
+
+
+def fake_monotonic():
+    return Now()
+
+
+UNPICKLABLE = 1000          # messages >= this are put as objects that cannot be pickled (QueueProg.UNPICKLABLE)
+
+
+class Unpicklable(int):
+    def __reduce_ex__(self, protocol):
+        raise pickle.PicklingError('cannot pickle message %d' % int(self))
+
+
+def message(m):
+    return Unpicklable(m) if m >= UNPICKLABLE else m
+
+
 def decode(b):
     return pickle.loads(b)
 
@@ -136,5 +173,9 @@ def install():
     bq.Finalize = NoFinalize
     bq.register_after_fork = lambda *a, **k: None
     bq.debug = lambda *a, **k: None
+    bq.info = lambda *a, **k: None
+    bq.error = lambda *a, **k: True        # "error in queue thread": logged, not printed
+    bq.is_exiting = lambda: False
+    bq.monotonic = fake_monotonic
     bq._detsched_fake = True
     detsched.Scheduler.decode = staticmethod(decode)
